@@ -621,6 +621,12 @@ pub fn all_mutations(ty: &str, out: &crate::spec::GenOut) -> Vec<FieldCase> {
                 }
             }
         }
+        // the whole part gone together with the line break in front of it (a party line left on its own)
+        if a > 0 && text.as_bytes()[a - 1] == b'\n' {
+            let mut t = text.clone();
+            t.replace_range(a - 1..b, "");
+            v.push((format!("drop-part-and-line-break:{l}"), t));
+        }
         for cut in [b - a, 1.min(b - a), (b - a) / 2] {
             if cut > 0 {
                 let mut t = text.clone();
